@@ -44,6 +44,7 @@ def items(tier):
     out.append({"kind": "labels", "rows": 1, "maxlen": L, "clean": True})      # values without the join character: must hold outright
     if tier == "thorough":      # two rows = four symbolic strings: z3's sequence solver needs 5-30 s per query and occasionally gives up under load
         out.append({"kind": "labels", "rows": 2, "maxlen": L - 1, "clean": True})
+    out.append({"kind": "labels_enum", "rows": 2})      # two rows, values of length <= 1 over {a, 1}: all 81 assignments as paths (concrete strings per path)
     out.append({"kind": "labels_single", "maxlen": L})
     out.append({"kind": "errors"})
     return out
@@ -273,6 +274,27 @@ def run_labels(h, rows, maxlen, clean=False, probe=False):
             lab = idx[i]
             h.check("row label = the group value tuple of the rows it was computed from",
                     isinstance(lab, tuple) and len(lab) == 2 and h.And(h.eq(lab[0], A[k]), h.eq(lab[1], B[k])))
+
+
+def run_labels_enum(h, rows):
+    """two group columns, values drawn from {"", "a", "1"} by symbolic selectors that are concretised (one path per
+    assignment): distinct value tuples give distinct rows, each labelled with the tuple of the rows it was computed from.
+    ('1' sorts below the join character, 'a' above it: joined-key order and tuple order differ.)"""
+    pd = _pd(h)
+    vals = ["", "a", "1"]
+    A = [vals[h.concretize(k)] for k in h.ints("ka", rows, 0, 2)]
+    B = [vals[h.concretize(k)] for k in h.ints("kb", rows, 0, 2)]
+    if len({(a, b) for a, b in zip(A, B)}) != rows:
+        return
+    scores = [h.const("1/4"), h.const("3/4")][:rows]
+    df = pd.DataFrame({"ga": A, "gb": B, "lab": [1] * rows, "sco": scores})
+    bf = h.sa.showbias(df, ["ga", "gb"], "lab", "sco", "fnr", threshold=[h.const("1/2")])
+    idx, cols, tab = _table(h, bf.values)
+    h.check("one row per distinct group value tuple", len(idx) == rows)
+    for i in range(len(idx)):
+        k = 0 if h.decide(h.eq(tab[i][0], 1)) else 1      # fnr 1 <=> computed from the row with score 1/4
+        lab = tuple(str(x) for x in idx[i]) if isinstance(idx[i], tuple) else idx[i]
+        h.check("row label = the group value tuple of the rows it was computed from", lab == (A[k], B[k]))
 
 
 def run_labels_single(h, maxlen):
